@@ -23,7 +23,7 @@ var (
 	envVCalls   int
 )
 
-//verif:stub github.com/google/certificate-transparency-go/trillian/ctfe.ValidateChain files=handlers.go
+//verif:stub github.com/google/certificate-transparency-go/trillian/ctfe.ValidateChain files=*
 func envValidateChain(raw [][]byte, opts CertValidationOpts) ([]*x509.Certificate, error) {
 	envVCalls++
 	if envChainErr != nil {
@@ -32,7 +32,7 @@ func envValidateChain(raw [][]byte, opts CertValidationOpts) ([]*x509.Certificat
 	return envChain, nil
 }
 
-//verif:stub github.com/google/certificate-transparency-go/x509.MarshalPKIXPublicKey files=structures.go
+//verif:stub github.com/google/certificate-transparency-go/x509.MarshalPKIXPublicKey files=*
 func envMarshalPKIX(pub any) ([]byte, error) { return envPubDER, nil }
 
 // envCert makes a parsed certificate with arbitrary DER of the given length.
